@@ -142,6 +142,13 @@ def builtin(ex, name, pos, kw, st: State) -> SV:
     if name == 'dict':
         if not pos and not kw: return ex.new_dict(st)
         raise Unsupported('dict(...)')
+    if name == 'set':
+        if not pos and not kw:
+            a = st.alloc_addr(CLS_SET)
+            st.set_arr('D_has', z3.Store(st.h.arr['D_has'], a, EMPTY_HAS))
+            st.set_arr('D_size', z3.Store(st.h.arr['D_size'], a, z3.IntVal(0)))
+            return sv_ref(a, T('set', cls='set'))
+        raise Unsupported('set(...)')
     if name in ('max', 'min'):
         if len(pos) == 2:
             ka, ta = ex.as_num(pos[0], st)
@@ -154,8 +161,11 @@ def builtin(ex, name, pos, kw, st: State) -> SV:
         raise Unsupported(name + ' arity')
     if name == 'hasattr':
         o, a = pos
-        if a.py is None and a.kind == 'str':
-            pass
+        lit = ex.const_str(a)
+        cls = o.cls if o.kind == 'ref' else None
+        if lit is not None and cls is not None and cls in ex.reg.schema.classes:
+            # declared attribute of a schema class (PJS: declared properties are always present)
+            return sv_bool(lit in ex.reg.schema.classes[cls])
         raise Unsupported('hasattr')
     if name == 'getattr':
         o, a = pos[0], pos[1]
@@ -269,6 +279,15 @@ def container_method(ex, recv: SV, name: str, pos, kw, st: State) -> SV:
                 st.set_arr(an, z3.Store(st.h.arr[an], r.t, z3.Select(h.arr[an], d)))
             return r
         raise Unsupported('dict.' + name)
+    if recv.kind == 'ref' and recv.cls == 'set':
+        if name == 'add':
+            k = to_val(pos[0])
+            h = st.h
+            had = h.has(recv.t, k)
+            st.set_arr('D_has', z3.Store(h.arr['D_has'], recv.t, z3.Store(z3.Select(h.arr['D_has'], recv.t), k, z3.BoolVal(True))))
+            st.set_arr('D_size', z3.Store(h.arr['D_size'], recv.t, z3.If(had, h.size(recv.t), h.size(recv.t) + 1)))
+            return SV_NONE
+        raise Unsupported('set.' + name)
     if recv.kind == 'str':
         if name in ('endswith', 'startswith'):
             fn = z3.Function('str_' + name, Str, Str, z3.BoolSort())
@@ -410,6 +429,8 @@ def call_by_contract(ex, c: Contract, pos, kw, st: State, site='') -> SV:
         raise Unsupported('call to a function without contract: ' + site)
     ex.call_ordinal += 1
     k = ex.call_ordinal
+    if not ex.probing:
+        ex.called.add(c.key)
     args = bind_args(ex, c, pos, kw, st)
     # ghosts: same-named ghost/param of the caller, else explicit binding, else fresh (universally quantified)
     ghosts = {}
